@@ -5,6 +5,7 @@ import (
 	"time"
 
 	"github.com/kercylan98/vivid/internal/messages"
+	"github.com/kercylan98/vivid/internal/utils"
 )
 
 func init() {
@@ -106,14 +107,63 @@ type OnKill struct {
 	Poison bool     // 是否采用毒杀模式，true 时立即销毁，不处理剩余队列，false 时常规优雅下线。
 }
 
-func onKillReader(message any, reader *messages.Reader, codec messages.Codec) error {
+func onKillReader(message any, reader *messages.Reader, codec messages.Codec) (err error) {
 	m := message.(*OnKill)
-	return reader.ReadInto(&m.Killer, &m.Reason, &m.Poison)
+	if m.Killer, err = readActorRef(reader); err != nil {
+		return err
+	}
+	return reader.ReadInto(&m.Reason, &m.Poison)
 }
 
 func onKillWriter(message any, writer *messages.Writer, codec messages.Codec) error {
 	m := message.(*OnKill)
-	return writer.WriteFrom(m.Killer, m.Reason, m.Poison)
+	if err := writeActorRef(writer, m.Killer); err != nil {
+		return err
+	}
+	return writer.WriteFrom(m.Reason, m.Poison)
+}
+
+// wireActorRef 是经由网络传输后还原的 ActorRef：ActorRef 是接口类型，其本地实现的字段均未导出，
+// 无法由通用的反射读写器处理，因此在线路上以 (address, path) 两个字符串表示。
+type wireActorRef struct {
+	address string
+	path    ActorPath
+}
+
+func (r *wireActorRef) GetAddress() string { return r.address }
+func (r *wireActorRef) GetPath() ActorPath { return r.path }
+func (r *wireActorRef) Equals(other ActorRef) bool {
+	if other == nil {
+		return false
+	}
+	return r.address == other.GetAddress() && r.path == other.GetPath()
+}
+func (r *wireActorRef) Clone() ActorRef        { return &wireActorRef{address: r.address, path: r.path} }
+func (r *wireActorRef) ToActorRefs() ActorRefs { return ActorRefs{r} }
+func (r *wireActorRef) String() string         { return utils.FormatRefString(r.address, r.path) }
+
+// writeActorRef 将 ActorRef 以 (存在标记, address, path) 写入；nil 引用只写入标记。
+func writeActorRef(writer *messages.Writer, ref ActorRef) error {
+	if ref == nil {
+		return writer.WriteFrom(false)
+	}
+	return writer.WriteFrom(true, ref.GetAddress(), ref.GetPath())
+}
+
+// readActorRef 读取由 writeActorRef 写入的 ActorRef。
+func readActorRef(reader *messages.Reader) (ActorRef, error) {
+	var present bool
+	if err := reader.ReadInto(&present); err != nil {
+		return nil, err
+	}
+	if !present {
+		return nil, nil
+	}
+	var address, path string
+	if err := reader.ReadInto(&address, &path); err != nil {
+		return nil, err
+	}
+	return &wireActorRef{address: address, path: path}, nil
 }
 
 // Pong 表示 Ping 消息的响应。
@@ -162,14 +212,15 @@ type OnKilled struct {
 	Ref ActorRef // 被终止的 ActorRef
 }
 
-func onKilledReader(message any, reader *messages.Reader, codec messages.Codec) error {
+func onKilledReader(message any, reader *messages.Reader, codec messages.Codec) (err error) {
 	m := message.(*OnKilled)
-	return reader.ReadInto(&m.Ref)
+	m.Ref, err = readActorRef(reader)
+	return err
 }
 
 func onKilledWriter(message any, writer *messages.Writer, codec messages.Codec) error {
 	m := message.(*OnKilled)
-	return writer.WriteFrom(m.Ref)
+	return writeActorRef(writer, m.Ref)
 }
 
 type StreamEvent any
